@@ -76,11 +76,11 @@ Definition sstep (s : sst) (o : op) : sst * out :=
       if 0 <? zdels s
       then (mkS (zwheel s) (zclock s) (ztt s) (zrefer s) (znext s) (zreq s) (zdels s - 1) (zpending s), OFlag true)
       else (s, OFlag false)
-  | Pass n => (mkS (zwheel s) (zclock s + Z.max n 0) (ztt s) (zrefer s) (znext s) (zreq s) (zdels s) (zpending s), ONone)
+  | Pass n => (mkS (zwheel s) (zclock s + n) (ztt s) (zrefer s) (znext s) (zreq s) (zdels s) (zpending s), ONone)
   | Tick =>
       if zwheel s then
         let '(t, p, r, o) := N.iter (Z.to_N (zclock s - ztt s)) ticks_acc (ztt s, zpending s, zrefer s, []) in
-        (mkS true (zclock s) t r (znext s) (zreq s) (zdels s) p, ODeliv o)
+        (mkS true (Z.max (zclock s) (ztt s)) t r (znext s) (zreq s) (zdels s) p, ODeliv o)
       else
         let '(p, r, o) := spec_tick (zclock s) (zpending s) (zrefer s) in
         (mkS false (zclock s) (ztt s) r (znext s) (zreq s) (zdels s) p, ODeliv o)
